@@ -99,6 +99,9 @@ def region_gc_vs_flank(rng):
 
 def gen_cases(rng, n):
     for i in range(n):
+        if i % 9 == 6:
+            yield dict(desc=C02.terminal_vs_global_gc(rng, as_objective=True), op="optimize", pre_ops=() if i % 2 else ("optimize",))
+            continue
         if i % 9 == 2:
             yield dict(desc=region_gc_vs_flank(rng), op="optimize", pre_ops=() if i % 2 else ("optimize",))
             continue
